@@ -62,6 +62,11 @@ async def check_injection(ctx, case):
     kann_spec = plant(spec, kann)
     rng = random.Random(case["schedule_seed"])
     world = E.World("c16", rc=asg, fc={k: True for k in POOLS.fc})
+    if case.get("shared_lookups"):
+        # the user's requirement evaluator shares one pending look-up per key between all nodes of the run: a failure at one node must not
+        # take the others down with it
+        world.shared_lookups = True
+        ctx.count("injections_with_shared_lookups")
     sc = sched.Sched(sched.RandomChooser(rng))
     out = await TB.validate(faulty_spec, world, soll, scheduler=sc)
     ctx.evaluation()
@@ -133,7 +138,7 @@ async def run(ctx):
         else:
             subsets = [[s] for s in rng.sample(sites, 6)] + [rng.sample(sites, rng.randint(2, min(6, len(sites)))) for _ in range(6 if ctx.quick else 14)]
         for subset in subsets:
-            case = {"spec": spec, "asg": asg, "soll": soll, "sites": subset, "exprs": {s: exprs[s] for s in subset}, "schedule_seed": rng.randrange(1 << 30)}
+            case = {"spec": spec, "asg": asg, "soll": soll, "sites": subset, "exprs": {s: exprs[s] for s in subset}, "schedule_seed": rng.randrange(1 << 30), "shared_lookups": rng.random() < 0.35}
             await check_injection(ctx, case)
         if i % 30 == 0:
             ctx.sample({"sites": sites[:10], "invalid_expressions": [T.expr_string(exprs[s]) for s in sites[:4]]}, cls="injection")
